@@ -235,6 +235,8 @@ def close1(got, exp):
         g = float(got)
     except ValueError:
         return False
+    if got.strip() in ("-0", "-0.0"):
+        return False       # there is no negative zero to write
     if abs(exp) >= 1e6 and exp == int(exp):
         return got.strip() == str(int(exp))       # a whole number is written as it is, however large
     return abs(g - exp) <= 0.0015 + 2e-5 * abs(exp)
